@@ -36,11 +36,8 @@ CLAIMS["C02"] = (
     ARB_NOTE + " DNS-label and IP-address syntax are oracle bits probed from the real validator.", "DESIGN.md 7 C02")
 
 CLAIMS["C03"] = (
-    "Rocq model of IsEqual / detectChangesIn* / createResourceChanges* / squash / deletes-first tied to the real Configuration by correspondence; the decidable specification "
-    "(replay of the implementation's own change batches into a shadow == GetResources after every event; deletes before updates) evaluated in Rocq on every generated history",
-    "The shadow-replay specification is evaluated by the Rocq kernel (vm_compute) on the real change batches of every generated history, and the change-emitting code is covered by the "
-    "step-by-step correspondence with the model; machine-checked theorems so far: the applied state is a function of the object set (hosts/listener hosts rebuilt from scratch). "
-    "The full invariant `shadow tracks state` over all histories is stated in DESIGN.md and not yet proved (partial). Three genuine defects found by this check were repaired by fix: commits.",
+    'Rocq theorems over all states/events (removals-first for every batch incl. concatenated listener+host batches; rebuild idempotent; state a function of the object set) + the shadow-replay specification evaluated in Rocq on the real change batches of every generated history; model of IsEqual/detectChanges/createResourceChanges/squash tied by correspondence',
+    "Machine-checked proof (no axioms) that in every batch returned for any event in any state every removal precedes every addition/update, that rebuilding in a reachable state emits nothing, and that the state the batches must reproduce is a function of the object set. The remaining half (`shadow = active set with current attributes after every event`, full statement in Properties/C03.v) is not yet proved (partial): it is decided on every run by evaluating the shadow-replay specification in Rocq on the implementation's own batches, with a diagnosis of the stale attribute. Three genuine defects found this way were repaired by fix: commits (F01 F02 F03).",
     ARB_NOTE + " Attributes a configuration is rendered from = the whole Resource except warnings; an object's spec is identified by (UID, generation, annotations).", "DESIGN.md 7 C03")
 CLAIMS["C20"] = (
     "Rocq theorems over all histories, fault oracles and lister orders of a model of SyncFnFor (certmanager + externaldns), tied by a correspondence harness on the real sync functions with "
@@ -119,11 +116,8 @@ CLAIMS["C19"] = (
     "Trusted: Rocq kernel; harness; validator verdicts as oracles from the real validators; map iteration modelled in key order with returned lists compared as sets.", "DESIGN.md 7 C19")
 
 CLAIMS["C04"] = (
-    "Rocq theorems over all object sets / route lists of the composition functions (routes attached = referenced, existing, reference-checked routes; minions = stored minions of the host; composition a function "
-    "of the object set) + the declarative composition (incl. per-path least claimant, only-owner-composes) evaluated in Rocq on the implementation's GetResources() after every event",
-    "Machine-checked proof (no axioms) that the route list of a VirtualServer is exactly the referenced, existing routes passing the per-reference check (whose meaning is proved), that the minions rendered with a master are "
-    "exactly the stored minions of its host, and that composition depends only on the current object set; per-path arbitration among minions and only-the-owner-composes are decided by the declarative specification evaluated "
-    "on the real resources of every generated history (theorem for the per-path holder not yet proved: partial). One genuine defect (minion listing a path twice) repaired; F12 (route attached twice) is a known finding.",
+    "Rocq theorems over all object sets / route lists / minion lists (routes attached = referenced, existing, reference-checked routes; minions = stored minions of the host; each path served by exactly the least-claimant minion; composition a function of the object set) + the declarative composition evaluated in Rocq on the implementation's GetResources() after every event",
+    "Machine-checked proof (no axioms) that the route list of a VirtualServer is exactly the referenced, existing routes passing the per-reference check (whose meaning is proved), that the minions rendered with a master are exactly the stored minions of its host, that a minion's ValidPaths mark for a path is true iff it is the least claimant of that path among them (any number of minions and paths, K1), and that composition depends only on the current object set; only-the-owner-composes and the end-to-end connection to GetResources are decided by the declarative specification evaluated on the real resources of every generated history. One genuine defect (F44) repaired; F12 (route attached twice) is a known finding.",
     ARB_NOTE + " The full VirtualServerRoute validator is an oracle; its per-reference part is modelled.", "DESIGN.md 7 C04")
 CLAIMS["C08"] = (
     "Rocq theorems over unbounded policy-reference lists and all dependency states of an executable model of generatePolicies / add*Config / getPolicies / policy inheritance / generateSSLConfig / addSSLConfig / Ingress JWT and "
@@ -134,20 +128,14 @@ CLAIMS["C08"] = (
     "Trusted: NGINX semantics behind the predicate (rewrite-phase return pre-empts proxy_pass; ssl_reject_handshake); the hand-written lexer/parser model; hooks. The template's position of `return` is checked on real output each run, "
     "not proved. Validators, Secret validation, App Protect and bundle existence are oracles. TransportServer TLS out of scope.", "DESIGN.md 7 C08")
 CLAIMS["C16"] = (
-    "Two-run non-interference check on the real Configuration (history vs. history with every foreign-class event replaced by a deletion) evaluated in Rocq, class predicate specification, silent-removal specification; "
-    "Rocq model tied by correspondence; theorem: object sets ignore foreign-class objects for every history",
-    "The decidable non-interference, silent-removal and class-precedence specifications are evaluated by the Rocq kernel on the real outputs of every generated history and its erasure; machine-checked so far: the stored object "
-    "sets of every reachable state contain no foreign-class object (last-write theorem). The two-history theorem over all histories is stated in DESIGN.md and not yet proved (partial). F04 (delete change keeps warnings on class "
-    "change => Rejected report on a foreign object) is a known finding.",
-    ARB_NOTE + " Events and status writes are taken to be a function of the returned changes/problems; Policies' class filter is covered by C08.", "DESIGN.md 7 C16")
+    'Rocq theorem about pairs of histories (non-interference: replacing every foreign-class event by the deletion of the object leaves every change list, problem list and state unchanged, for all histories), stored objects all arrived with the own class; two-run non-interference, silent-removal and class-precedence specifications evaluated in Rocq on the real Configuration',
+    'Machine-checked proof (no axioms) of non-interference at the arbitration level for every history, through a full-state invariant (hosts, listener hosts and both problem maps are functions of the stored objects) and idempotence of rebuilding; on every run every generated history and its erasure are run on the real Configuration and compared step by step, silent removal and the class predicate are evaluated on the real outputs. F04 (delete change keeps warnings on class change => Rejected report on a foreign object) is a known finding.',
+    ARB_NOTE + " Events and status writes are a function of the returned changes/problems (tied at controller level by the C05 check); Policies' class filter is covered by C08; leader-start status refresh is not covered.", "DESIGN.md 7 C16")
 
 CLAIMS["C05"] = (
-    "Accumulated-report specification (last report per object derived from the real change and problem lists; active <=> last report is a success; validation error reported in the same step) evaluated in Rocq "
-    "on every step of every generated history of the real Configuration; Rocq model of the problem producers and delta suppression tied by correspondence",
-    "The decidable truthfulness specification is evaluated by the Rocq kernel (vm_compute) on the implementation's own change/problem lists after every event of every generated history (5000 histories in the thorough "
-    "tier), and the problem producers, delta suppression and change lists are covered by the step-by-step correspondence with the model; machine-checked so far: the applied state and problem inputs are a function of "
-    "the object set. The invariant over all histories (C05_truthful) is stated in DESIGN.md and not yet proved (partial).",
-    ARB_NOTE + " The mapping from changes/problems to events and status writes (processChanges / processProblems) is transcribed, not executed; converted cert-manager challenge Ingresses are excluded.", "DESIGN.md 7 C05")
+    'Rocq theorems over all histories (delta suppression of problems is sound: every standing problem was sent and is the last one sent about its object; problem sets are functions of the object set; re-sync is silent) + the accumulated-report specification evaluated in Rocq at two levels: on the real change/problem lists, and on the Events recorded by the real LoadBalancerController.sync',
+    "Machine-checked proof (no axioms) of the soundness of delta suppression for every history. The full invariant C05_truthful (active <=> last report is a success, for every known object after every event; statement in Properties/C05.v) is not yet proved (partial): it is decided on every run by the Rocq kernel evaluating it on the implementation's own change/problem lists of every generated history, and again on the Events that the real controller records for the same histories (the transcription of processChanges/processProblems is compared with those Events on every step; the validation error of the processed object must appear in an Event about it).",
+    ARB_NOTE + " Controller level: production constructor, fake clientsets, harness-filled informer stores, fake NGINX manager; status-subresource writes are recorded but only Events are judged. Converted cert-manager challenge Ingresses are excluded.", "DESIGN.md 7 C05")
 
 CLAIMS["C17"] = (
     "Rocq theorems about nil-shape models (every Go pointer dereference or [0] is an explicit deref in code order behind the code's own guards): finite shape spaces swept inside Rocq and lifted by completeness of "
